@@ -9,7 +9,7 @@ package cmdrunner
 //@   nopanic [C15.nf]
 //@   nonblocking
 //@   requires addr != nil
-//@   modifies conns_open
+//@   modifies conns_open, tokens
 //@   ensures dial_err(net_of(addr), str_of(addr)) != nil ==> result0 == nil && result1 == cmdrunner.ErrProcessNotFound   [C15.nf]
 //@   ensures result1 == nil ==> result0 != nil && typeis(result0, "*cmdrunner.CmdAttachedRunner") && unbox(result0, "*cmdrunner.CmdAttachedRunner").pid == pid   [C15.nf]
 //@   ensures result1 != nil ==> result0 == nil   [C15.nf]
